@@ -27,9 +27,25 @@
     - [PositiveCode l]: every reference of every actor code has at least one byte;
     - [den s a m k] (C11): the list denotes (artifact a, address space m, address k);
     - [vap], [vfc], [vni]: ValidatorActorsAreProtected / FinalCoverageIsComplete /
-      NoIssues; [vi_step], [vi_kind], [vi_refs] = StepIdx, kind, NonMeasured. *)
+      NoIssues; [vi_step], [vi_kind], [vi_refs] = StepIdx, kind, NonMeasured.
+
+    Slice level (Model/ValidatorsHeap.v, Proofs/ValidatorsHeap.v): the validators
+    sort the range arrays they are given in place and append to them, and those
+    arrays belong to the log, which validator.All() / pcr0tool hand to one
+    validator after the other.
+    - [heap]: the backing arrays; [sl]: a Go slice header (array, offset, len, cap);
+      [rd h s]: what the slice reads as; a log step [hstep] holds, for every
+      reference, the slice header of its Ranges; [windows l]: all of them;
+    - [hvap h l], [hvfc h files l]: the two range validators run on the log [l] over
+      the memory [h]: (memory afterwards, issues);
+    - [WFheap h W]: every slice lies inside its array and two slices are the same
+      window or do not overlap (spare capacity may overlap anything);
+    - [NoSmallSpare W]: a slice with fewer than two ranges has cap = len;
+    - [kept h0 W h]: arrays keep their lengths and every slice of [W] reads in [h]
+      as a permutation of what it reads as in [h0]. *)
 From Coq Require Import Permutation.
-From CSS Require Import Lib.Base Model.Ranges Model.Refs Model.Validators Proofs.Ranges Proofs.Refs Proofs.Validators.
+From CSS Require Import Lib.Base Model.Ranges Model.Refs Model.Validators Model.ValidatorsHeap
+  Proofs.Ranges Proofs.Refs Proofs.Validators Proofs.ValidatorsHeap.
 
 (** ** The model's SortAndMerge / Exclude are instances of C11's relations *)
 
@@ -141,6 +157,62 @@ Theorem C10_noissues_in : forall l i x,
   In (i, x) (vni l) <-> exists k st, i = Z.of_nat k /\ nth_error l k = Some st /\ In x (s_issues st).
 Proof. exact noissues_in. Qed.
 Print Assumptions C10_noissues_in.
+
+(** ** Validating a log does not rewrite it *)
+
+(** The verdicts are a function of the flow only if a validator leaves the log as
+    it found it: the next validator of the chain, or a second pass, reads the same
+    log.  Slice-level statement: the only writes to the memory behind the log are
+    in-place sorts of whole slices, so every slice keeps its ranges up to order.
+    It composes over any number of passes ([kept] is relative to the first memory
+    [h0], and [kept h0 W h0] holds).
+    PARTIAL: needs [NoSmallSpare]; a slice with fewer than two ranges and spare
+    capacity is not re-allocated by fiano's Ranges.SortAndMerge, and
+    References.SortAndMerge appends the next reference's ranges into its array
+    ([C10_validation_keeps_log_refuted], finding C10-shared-backing-append). *)
+Theorem C10_validation_keeps_log_partial : forall h0 l h files,
+  WFheap h0 (windows l) -> NoSmallSpare (windows l) -> kept h0 (windows l) h ->
+  kept h0 (windows l) (fst (hvap h l)) /\ kept h0 (windows l) (fst (hvfc h files l)).
+Proof.
+  exact (fun h0 l h files WF N K =>
+    conj (vap_keeps h0 _ WF N h l K (incl_refl _)) (vfc_keeps h0 _ WF N h files l K (incl_refl _))).
+Qed.
+Print Assumptions C10_validation_keeps_log_partial.
+
+(** what [kept] gives a reader of the log: every group of references (the measured
+    references of a step, an actor's code) denotes the same bytes as before, and
+    the hypotheses hold again for the next pass *)
+Theorem C10_kept_log_reads_the_same : forall h0 W h,
+  kept h0 W h0 /\
+  (kept h0 W h ->
+   (forall refs a m k, incl (map l_sl refs) W ->
+      den (map (val_lref h) refs) a m k <-> den (map (val_lref h0) refs) a m k) /\
+   (WFheap h0 W -> WFheap h W)).
+Proof.
+  exact (fun h0 W h => conj (kept_refl h0 W)
+    (fun K => conj (fun refs a m k I => kept_den h0 W h refs a m k K I) (fun WF => kept_wf h0 W h WF K))).
+Qed.
+Print Assumptions C10_kept_log_reads_the_same.
+
+(** Without [NoSmallSpare] (finding C10-shared-backing-append): a well-formed log
+    whose validation replaces a measured range by another one; the first pass
+    reports nothing, a second pass over the same log reports the actor of step 2
+    although its code was measured in step 0. *)
+Theorem C10_validation_keeps_log_refuted : exists h l,
+  WFheap h (windows l) /\
+  ~ kept h (windows l) (fst (hvap h l)) /\
+  snd (hvap h l) = Ok [] /\
+  exists v, snd (hvap (fst (hvap h l)) l) = Ok [v] /\ vi_step v = 2 /\ vi_kind v = 4.
+Proof. exact keeps_refuted. Qed.
+Print Assumptions C10_validation_keeps_log_refuted.
+
+(** the hypotheses are satisfiable by a log whose validation does write to memory
+    (three ranges out of order in a slice with spare capacity: sorted in place,
+    nothing else changes) *)
+Example C10_ex_keeps_hyps :
+  WFheap ok_heap (windows ok_log) /\ NoSmallSpare (windows ok_log) /\
+  fst (hvap ok_heap ok_log) = [[]; [mkR 16 4; mkR 32 4; mkR 48 4; mkR 0 0]; [mkR 8 4]].
+Proof. exact (conj (proj1 ok_log_hyps) (conj (proj2 ok_log_hyps) ok_log_sorted)). Qed.
 
 (** ** The hypotheses are satisfiable by a non-trivial log (the D7 pattern) *)
 
